@@ -46,6 +46,11 @@ type kvElection struct {
 	state    atomic.Value
 	mu       sync.RWMutex
 
+	// strayToken is the token of the latest record this instance wrote without
+	// starting a term on it (becomeLeader declined: stopped, run ended, or a term
+	// already running). Such a record is still this instance's to delete.
+	strayToken atomic.Value
+
 	lastHeartbeat   atomic.Value
 	lastTransition  atomic.Value
 	leaderStartTime atomic.Value // Track when leadership started for duration metric
@@ -414,6 +419,7 @@ func (e *kvElection) becomeLeader(token string, rev uint64) {
 	// A stopped election stays stopped: an acquisition that was still in flight
 	// when Stop/StopWithContext ran must not claim leadership afterwards.
 	if fromState == StateStopped {
+		e.strayToken.Store(token)
 		return
 	}
 
@@ -421,6 +427,7 @@ func (e *kvElection) becomeLeader(token string, rev uint64) {
 	// Start was cancelled while the acquisition was in flight): every loop has ended
 	// with it, so nobody would refresh the record or ever drop the claim again.
 	if e.ctx != nil && e.ctx.Err() != nil {
+		e.strayToken.Store(token)
 		return
 	}
 
@@ -431,6 +438,7 @@ func (e *kvElection) becomeLeader(token string, rev uint64) {
 	// heartbeat or validation, with the demotion callback, and the instance is
 	// then re-elected normally.
 	if e.isLeader.Load() {
+		e.strayToken.Store(token)
 		return
 	}
 
@@ -926,7 +934,16 @@ func (e *kvElection) recordHeldByOther() bool {
 	if err := json.Unmarshal(entry.Value(), &current); err != nil {
 		return false
 	}
-	return current.ID != e.cfg.InstanceID || current.Token != e.Token()
+	if current.ID != e.cfg.InstanceID {
+		return true
+	}
+	// Ours: the record of the term being ended, or one written by a left-over
+	// acquisition of this instance that no term was started on (it would otherwise
+	// stay behind, naming a stopped instance, until it expires).
+	if stray, ok := e.strayToken.Load().(string); ok && stray != "" && current.Token == stray {
+		return false
+	}
+	return current.Token != e.Token()
 }
 
 func (e *kvElection) Status() ElectionStatus {
